@@ -140,6 +140,7 @@ N_PD_TOTAL = {"stem": "ptrace_dumper", "filter": "c02", "tiers": Q, "tests": {
 N_TLS = {"stem": "thread_list_stream", "filter": "", "tiers": Q, "tests": {
     "bprime_stack_region_for_every_sp_offset": H("B'", "fill_thread_stack (on this process's own memory)", "516 in-page sp offsets x {no limit, 2 KiB limit} + 8 sp positions below the mapping x {no limit, 2 KiB limit}"),
     "c06_no_plausible_mapping_within_guard_distance_gives_an_empty_stack": H("B'", "fill_thread_stack / get_stack_info", "sp inside a 3 MiB inaccessible region, with and without the limit"),
+    "c06_readable_mapping_beyond_the_guard_distance_is_not_the_stack": H("B'", "PtraceDumper::get_stack_info (synthetic mapping lists)", "inaccessible reservation of 5/8/64 MiB directly followed by a readable mapping: 6 distances of sp below it (4 KiB .. 4 MiB) x 4 in-page offsets"),
     "c20_ip_at_end_of_principal_mapping_is_outside": H("B'", "fill_thread_stack", "ip == end of the principal mapping, all-zero stack"),
 }}
 N_TLS_C02 = {"stem": "thread_list_stream", "filter": "c02_", "tiers": Q, "tests": {
@@ -158,7 +159,7 @@ N_C07_LIVE = {"name": "c07_ip_window", "tiers": Q, "tests": {
     "ip_window_is_clipped_to_the_mapping_that_contains_ip": H("B'", "MinidumpWriter::dump with crash contexts whose ip is inside / on the last byte / on the first byte of adjacent mappings / unmapped", "5 instruction pointers on one live child")}}
 TWINS_STACK = {
     "fill_thread_stack": ["native:thread_list_stream::bprime_stack_region_for_every_sp_offset", "native:thread_list_stream::c20_ip_at_end_of_principal_mapping_is_outside"],
-    "get_stack_info": ["native:thread_list_stream::c06_no_plausible_mapping_within_guard_distance_gives_an_empty_stack", "native:ptrace_dumper::c02_get_stack_info_top_of_address_space"],
+    "get_stack_info": ["native:thread_list_stream::c06_no_plausible_mapping_within_guard_distance_gives_an_empty_stack", "native:thread_list_stream::c06_readable_mapping_beyond_the_guard_distance_is_not_the_stack", "native:ptrace_dumper::c02_get_stack_info_top_of_address_space"],
     "app_memory_write": ["kani:vk_app_memory_two_regions"],
     "find_mapping": ["kani:vk_find_mapping_2"],
     "may_be_stack": ["kani:vk_may_be_stack_rule"],
@@ -322,7 +323,7 @@ PLAN["C04"] = {
              {"tiers": T, "jobs": 3, "timeout": 5400, "mem_gb": 20, "harnesses": dict(K_TLS, **K_GENERATE)},
              G_DUMP],
     "native": [{"stem": "ptrace_dumper", "filter": "bprime_enumerate", "tiers": Q, "tests": {
-        "bprime_enumerate_threads_of_this_process": H("B'", "PtraceDumper::enumerate_threads (this process as the target)", "6 helper threads + the runner's own, compared with /proc/self/task")}}],
+        "bprime_enumerate_threads_of_this_process": H("B'", "PtraceDumper::enumerate_threads (this process as the target)", "10 helper threads (two with names that are not UTF-8) + the runner's own, compared with /proc/self/task")}}],
     "native_files": [N_LIVE_NOATTACH],
     "trusted": ["that a ptrace-stopped thread does not run, and what /proc/<pid>/task lists, are the kernel's contract (L5)"],
     "samples": ["vk_thread_fill_cpu_context_gprs: out.rax == regs.rax ... out.cs == regs.cs as u16, dr0..dr7, rip"],
@@ -379,7 +380,7 @@ PLAN["C15"] = {
         "c15_unnamed_thread_before_named_thread": H("B'", "thread_names_stream::write", "threads [unnamed 11, named 22 \"bc\"]"),
         "bprime_thread_names_of_every_short_list": H("B'", "thread_names_stream::write (with the real write_string_to_location)", "every list of 1..=3 threads over {unnamed} + 7 names (every UTF-8 width, 1 and 2 UTF-16 units per character, empty): 584 lists")}},
                {"stem": "ptrace_dumper", "filter": "bprime_enumerate", "tiers": Q, "tests": {
-        "bprime_enumerate_threads_of_this_process": H("B'", "PtraceDumper::enumerate_threads (names as the kernel reports them)", "6 thread names: length 1..15, leading/inner whitespace, non-ASCII")}}],
+        "bprime_enumerate_threads_of_this_process": H("B'", "PtraceDumper::enumerate_threads (names as the kernel reports them)", "10 thread names: length 0..15, leading/inner/trailing whitespace, non-ASCII, two that are not UTF-8 placed in front of readable ones (their threads are unnamed, the later names intact)")}}],
     "trusted": ["names in the Kani harnesses are concrete (strings are a cost cliff for CBMC)",
                 "Verus cannot read the function (filter().count(), enumerate())"],
     "samples": ["vk_thread_names_second_only: header == 1, entry 0 == (tid1, rva of \"bc\")"],
@@ -415,14 +416,14 @@ PLAN["C12"] = {
 
 PLAN["C13"] = {
     "level": "model_checking",
-    "explanation": "MappingInfo::aggregate (through procfs-core's real parser) checked on every memory map of up to 3 lines over a 64-element per-line "
-                   "domain and every vDSO choice (1 060 992 maps) against ten reference predicates derived from the statement and from what the other contracts assume of a derived mapping (order, ownership, hull, merge rules, vDSO name, path without the deleted marker, kernel-reported range, permission union, offset, must-merge)",
+    "explanation": "MappingInfo::aggregate (through procfs-core's real parser) checked on every memory map of up to 3 lines over an 80-element per-line "
+                   "domain and every vDSO choice (2 067 360 maps) against ten reference predicates derived from the statement and from what the other contracts assume of a derived mapping (order, ownership, hull, merge rules, vDSO name, path without the deleted marker, kernel-reported range, permission union, offset, must-merge)",
     "verus": [],
     "kani": [{"tiers": Q, "jobs": 2, "timeout": 1500, "harnesses": {
         "vk_aggregate_one_line_path": H("B", "MappingInfo::aggregate", "1 line, symbolic addresses/permissions/offset/vDSO address, name /a")}}],
     "native": [{"stem": "maps_reader", "filter": "bprime_aggregate", "tiers": Q, "tests": {
-        "bprime_aggregate_up_to_2_lines": H("B'", "MappingInfo::aggregate", "all maps of 1..=2 lines over the per-line domain x vDSO choices (12 416)"),
-        "bprime_aggregate_up_to_3_lines": H("B'", "MappingInfo::aggregate", "all maps of 1..=3 lines (1 060 992)")}}],
+        "bprime_aggregate_up_to_2_lines": H("B'", "MappingInfo::aggregate", "all maps of 1..=2 lines over the per-line domain x vDSO choices (19 360)"),
+        "bprime_aggregate_up_to_3_lines": H("B'", "MappingInfo::aggregate", "all maps of 1..=3 lines (2 067 360)")}}],
     "trusted": ["Kani handles one line with symbolic numbers (77 s) but not two within 40 min, and Verus rejects the function: beyond one line the property is decided at tier B' only",
                 "'between two parts of an executable file mapping' is read as 'between two parts of the same file mapping' (the code does not test executability for the fold rule)"],
     "samples": ["P2: every line lies in exactly one derived mapping", "P4: a line joins a group only if it carries the group's name, or is the inaccessible gap after an executable file mapping, or the anonymous inaccessible page between two parts of the same file"],
@@ -455,7 +456,7 @@ PLAN["C08"] = {
     "native": [{"stem": "module_reader", "filter": "c14_well", "tiers": Q, "tests": {
         "c14_well_formed_image_is_identified": H("B'", "BuildId/SoName::read_from_module", "8 hand-built ELF64 images: with/without build-id note, data section before .text (allocated; executable but not allocated), ABI-tag note first, program headers only, sections only")}},
                {"stem": "maps_reader", "filter": "bprime_aggregate_up_to_2", "tiers": Q, "tests": {
-        "bprime_aggregate_up_to_2_lines": H("B'", "MappingInfo::aggregate (module naming: the mapped path without the ' (deleted)' marker; extents)", "every map of <= 2 lines over the 64-element per-line domain x vDSO choices (12 416 maps)")}},
+        "bprime_aggregate_up_to_2_lines": H("B'", "MappingInfo::aggregate (module naming: the mapped path without the ' (deleted)' marker; extents)", "every map of <= 2 lines over the 80-element per-line domain x vDSO choices (19 360 maps)")}},
                {"stem": "maps_reader", "filter": "bprime_effective", "tiers": Q, "tests": {
         "bprime_effective_module_name": H("B'", "MappingInfo::get_mapping_effective_path_name_and_version", "8 paths x 4 SONAMEs x executable x offset (128)")}},
                {"stem": "mappings", "filter": "bprime_module", "tiers": Q, "tests": {
@@ -597,7 +598,7 @@ LEVEL_TEXT = {
     "C10": "unbounded proof that no directory entry reaches the destination before the bytes it can reference (the obligation that failed on the pinned tree and was repaired); complete control-flow proof that generate_dump emits entries only through write_to_file (thorough)",
     "C11": "bounded check of suspend_threads, complete control-flow proof (relative to stubs) for the 11 best-effort steps of generate_dump (thorough); init and JSON well-formedness are not covered",
     "C12": "bounded: exhaustive native enumeration of 13 872 boundary inputs and of 12 960 inputs over the geometry of the pre-filter table (quick) and Kani over all 8/12-byte stacks with a symbolic mapping (thorough); not a proof for all stack lengths",
-    "C13": "bounded: exhaustive over all maps of up to 3 lines of a 64-element per-line domain; not a proof for all map lengths",
+    "C13": "bounded: exhaustive over all maps of up to 3 lines of an 80-element per-line domain; not a proof for all map lengths",
     "C14": "bounded: eight hand-built images and 608 688 parses of corrupted variants (under a watchdog: a hang is a verdict); memory-vs-file agreement of build id and SONAME for every ELF image loaded into the test process and the vDSO; agreement with an independent parser on installed files is not decided",
     "C15": "bounded: every named/unnamed pattern of 2 threads with symbolic ids and concrete names (Kani); every list of <= 3 threads over 8 name shapes incl. non-BMP names (native)",
     "C16": "unbounded proof for every Buffer/MemoryWriter/MemoryArrayWriter function Verus can read (all inputs, all buffer states); complete Kani proofs of the per-type size facts; alloc_from_array proved for any array length (loop head desugared by the extractor, recorded in the evidence); bounded Kani checks (stated bounds) of alloc_from_iter/write_string_to_location",
